@@ -22,3 +22,40 @@ def register(reg):
                            "environ['PATH_INFO'] == old(environ['PATH_INFO']) and environ['SCRIPT_NAME'] == old(environ['SCRIPT_NAME'])"],
                    "decreases": "len(script)"}},
     )
+
+    # ---- URL reconstruction: which parts are included (quote / uri_to_iri abstract) --------------------------
+    import z3
+    from pyvc.values import VStr, VBuiltin, StrS
+    from pyvc.ops import concrete_str
+    QUOTE = z3.Function("urllib_quote", StrS, StrS, StrS)     # (text, safe set)
+
+    def _quote(interp):
+        def impl(it, a, k, n):
+            s = it.need(a[0])
+            safe = concrete_str(it.need(k.get("safe", a[1] if len(a) > 1 else VStr("/"))).z)
+            return VStr(QUOTE(s.z, z3.StringVal(safe)))
+        return VBuiltin("urllib.parse.quote", impl)
+    reg.overrides["std:urllib.parse.quote"] = _quote
+    reg.spec_names["quote"] = VBuiltin("spec:quote", lambda it, a, k, n: VStr(QUOTE((a[0].val if hasattr(a[0], "val") else a[0]).z, a[1].z)))
+    reg.ufunc("uf_uri_to_iri", ["str"], "str")
+    reg.contract("werkzeug/urls.py:uri_to_iri", prop=P, trusted=True, params={"uri": "str"}, returns="str",
+                 ensures=["result == uf_uri_to_iri(uri)"], note="IRI/URI laws themselves: bounded tier")
+    PS = "!$&'()*+,/:;=@%"
+    QS = "!$&'()*+,/:;=?@%"
+    reg.contract(
+        "werkzeug/sansio/utils.py:get_current_url", prop=P,
+        params={"scheme": "str", "host": "str", "root_path": "Optional[str]", "path": "Optional[str]",
+                "query_string": "Optional[bytes]"}, returns="str",
+        ensures=[
+            "implies(root_path is None, result == uf_uri_to_iri(scheme + '://' + host + '/'))",
+            f"implies(root_path is not None and path is None, "
+            f"        result == uf_uri_to_iri(scheme + '://' + host + quote(root_path.rstrip('/'), \"{PS}\") + '/'))",
+            f"implies(root_path is not None and path is not None and (query_string is None or len(query_string) == 0), "
+            f"        result == uf_uri_to_iri(scheme + '://' + host + quote(root_path.rstrip('/'), \"{PS}\") + '/' + "
+            f"                                quote(path.lstrip('/'), \"{PS}\")))",
+            f"implies(root_path is not None and path is not None and query_string is not None and len(query_string) > 0, "
+            f"        result == uf_uri_to_iri(scheme + '://' + host + quote(root_path.rstrip('/'), \"{PS}\") + '/' + "
+            f"                                quote(path.lstrip('/'), \"{PS}\") + '?' + quote(query_string, \"{QS}\")))",
+        ],
+        raises={},
+    )
